@@ -54,7 +54,7 @@ func (l vC09Letter) String() string {
 	return fmt.Sprintf("%s#%d", l.method, l.id)
 }
 
-var vC09Methods = []string{"connect", "connect+ping", "connect-refused", "subscribe", "unsubscribe", "publish", "presence",
+var vC09Methods = []string{"connect", "connect+ping", "connect-refused", "connect-suberr", "subscribe", "unsubscribe", "publish", "presence",
 	"presence_stats", "history", "rpc", "send", "refresh", "sub_refresh", "ping", "none"}
 
 func (l vC09Letter) command() *protocol.Command {
@@ -64,6 +64,10 @@ func (l vC09Letter) command() *protocol.Command {
 		c.Connect = &protocol.ConnectRequest{}
 	case "connect-refused":
 		c.Connect = &protocol.ConnectRequest{Token: "refuse"}
+	case "connect-suberr":
+		// credentials are accepted, then a connect-time server-side subscription fails (already
+		// expired): the connect is answered with an error after the connection was authenticated
+		c.Connect = &protocol.ConnectRequest{Token: "suberr"}
 	case "subscribe":
 		c.Subscribe = &protocol.SubscribeRequest{Channel: "a"}
 	case "unsubscribe":
@@ -178,6 +182,10 @@ func vC09NewEnv(hmode string, async bool) *vC09Env {
 		e.hit("connecting")
 		if ev.Token == "refuse" {
 			return ConnectReply{}, ErrorPermissionDenied
+		}
+		if ev.Token == "suberr" {
+			return ConnectReply{Credentials: &Credentials{UserID: "u", ExpireAt: time.Now().Unix() + 1000}, ClientSideRefresh: true,
+				Subscriptions: map[string]SubscribeOptions{"srv": {ExpireAt: time.Now().Unix() - 10}}}, nil
 		}
 		return ConnectReply{Credentials: &Credentials{UserID: "u", ExpireAt: time.Now().Unix() + 1000}, ClientSideRefresh: true}, nil
 	})
@@ -374,7 +382,7 @@ func (e *vC09Env) runSeq(proto ProtocolType, entry string, seq []vC09Letter) (op
 		switch state {
 		case "fresh":
 			switch {
-			case l.isConnect() && l.id != 0 && l.method != "connect-refused":
+			case l.isConnect() && l.id != 0 && l.method != "connect-refused" && l.method != "connect-suberr":
 				state = "connected"
 				if l.method == "connect+ping" {
 					pingOut = "yes"
@@ -569,7 +577,7 @@ var vC09AsyncMethods = []string{"rpc", "subscribe", "publish", "history", "prese
 func init() {
 	vsched.Register(&vsched.Harness{
 		Name: "cmdseq", Props: []string{"C09"}, Kind: "sched",
-		Doc: "all command sequences of length <= 3 (quick) / 4 (thorough) over 15 methods x ids {0,1,2} (+ truncated / garbage / empty frames) through HandleCommand, HandleReadFrame (one command per frame, whole sequence in one frame) in real JSON and Protobuf encodings, handlers answering ok / *Error / *Disconnect; async-*: two commands whose handler callbacks complete on separate threads, all interleavings within the deviation bound; oracle: authentication gate (bad-request close, zero handler invocations), exactly one reply per id unless closed, pong without ping closes",
+		Doc: "all command sequences of length <= 3 (quick) / 4 (thorough) over 16 methods (incl. a connect the application refuses and a connect that fails in a connect-time server-side subscription) x ids {0,1,2} (+ truncated / garbage / empty frames) through HandleCommand, HandleReadFrame (one command per frame, whole sequence in one frame) in real JSON and Protobuf encodings, handlers answering ok / *Error / *Disconnect; async-*: two commands whose handler callbacks complete on separate threads, all interleavings within the deviation bound; oracle: authentication gate (bad-request close, zero handler invocations), exactly one reply per id unless closed, pong without ping closes",
 		Variants: vC09Variants,
 		Sched: func(v vsched.Variant) func() {
 			if strings.HasPrefix(v.Name, "async-") {
